@@ -21,3 +21,7 @@ Definition res_matches {A} (eqb : A -> A -> bool) (r : res A) (o : outcome A) : 
   | Panic _, OPanic => true
   | _, _ => false
   end.
+
+(** long programs are described, not spelled out: [rep n b] = b repeated n times *)
+Fixpoint rep_nat (n : nat) (b : list Z) : list Z := match n with O => [] | S k => b ++ rep_nat k b end.
+Definition rep (n : Z) (b : list Z) : list Z := rep_nat (Z.to_nat n) b.
